@@ -21,6 +21,7 @@ import ScalesModel.Adapter.Varz
 import ScalesModel.Adapter.Proxy
 import ScalesModel.Adapter.Uri
 import ScalesModel.Adapter.TimerQueue
+import ScalesModel.Adapter.MuxCodec
 open Scales
 
 def components : List Comp := [
@@ -39,7 +40,8 @@ def components : List Comp := [
   ⟨"varz", Scales.Varz.comp.run⟩,
   ⟨"proxy", Scales.Proxy.comp.run⟩,
   ⟨"uri", Scales.Uri.comp.run⟩,
-  ⟨"timerq", Scales.TimerQ.comp.run⟩
+  ⟨"timerq", Scales.TimerQ.comp.run⟩,
+  ⟨"muxcodec", Scales.MuxCodec.comp.run⟩
 ]
 
 structure CaseAcc where
